@@ -272,21 +272,7 @@ structure Vm where
   opt : String → Option String      -- single-valued options (canonical name)
   multi : String → List String      -- composing options
   env : String → Option String
-
-def mkVm (occ : List (String × String)) (env : List (String × String)) : Vm where
-  opt n := (occ.find? (fun p => p.1 == n)).map (·.2)
-  multi n := (occ.filter (fun p => p.1 == n)).map (·.2)
-  env := fun v => (env.find? (fun p => p.1 == v)).map (·.2)
-
-def Vm.count (vm : Vm) (n : String) : Bool := (vm.opt n).isSome
-
-/-- options whose effect the model follows -/
-def supportedOpts : List String :=
-  ["pika:threads", "pika:cores", "pika:scheduler", "pika:affinity", "pika:bind", "pika:pu-step",
-   "pika:pu-offset", "pika:numa-sensitive", "pika:ignore-process-mask", "pika:high-priority-threads",
-   "pika:ini", "pika:ignore"]
-
-/-! ## manage_config (cfgmap) and the ini tree (rtcfg_) -/
+  rt : String → String              -- `rtcfg_.get_entry(key)` at the time `handle_arguments` runs
 
 /-- split `key=value` at the first `=`; `none` if there is no `=`. -/
 def splitIni (s : String) : Option (String × String) :=
@@ -299,9 +285,15 @@ def stripBang (k : String) : String × Bool :=
   | '!' :: r => (String.ofList r.reverse, true)
   | _ => (k, false)
 
-/-- `manage_config::add`: the first definition of a key wins. -/
-def cfgGet (inis : List String) (k : String) : Option String :=
-  (inis.filterMap splitIni).findSome? (fun p => if (stripBang p.1).1 == k then some p.2 else none)
+/-- the last `--pika:ini` definition of key `k` (the ini tree: last assignment wins) -/
+def lastIni : List String → String → Option String
+  | [], _ => none
+  | s :: rest, k =>
+    match lastIni rest k with
+    | some v => some v
+    | none => match splitIni s with
+      | some (k0, v) => if (stripBang k0).1 == k then some v else none
+      | none => none
 
 /-- `rtcfg_.get_entry(key)` on the default ini: `${ENV:default}` is expanded when read. -/
 def rtGet (env : String → Option String) (k : String) : String :=
@@ -310,6 +302,34 @@ def rtGet (env : String → Option String) (k : String) : String :=
     | some e => (env e).getD r.dflt
     | none => r.dflt)
   | none => ""
+
+def mkVm (occ : List (String × String)) (env : List (String × String)) : Vm where
+  opt n := (occ.find? (fun p => p.1 == n)).map (·.2)
+  multi n := (occ.filter (fun p => p.1 == n)).map (·.2)
+  env := fun v => (env.find? (fun p => p.1 == v)).map (·.2)
+  rt := rtGet (fun v => (env.find? (fun p => p.1 == v)).map (·.2))
+
+/-- `rtcfg_` after `reconfigure(cfg)`: the `--pika:ini` definitions have been merged into the tree
+    (last assignment wins), everything else is still environment / default. -/
+def rtFinal (vm : Vm) (k : String) : String :=
+  (lastIni (vm.multi "pika:ini") k).getD (rtGet vm.env k)
+
+/-- the view of the second `handle_arguments` pass -/
+def Vm.second (vm : Vm) : Vm := { vm with rt := rtFinal vm }
+
+def Vm.count (vm : Vm) (n : String) : Bool := (vm.opt n).isSome
+
+/-- options whose effect the model follows -/
+def supportedOpts : List String :=
+  ["pika:threads", "pika:cores", "pika:scheduler", "pika:affinity", "pika:bind", "pika:pu-step",
+   "pika:pu-offset", "pika:numa-sensitive", "pika:ignore-process-mask", "pika:high-priority-threads",
+   "pika:ini", "pika:ignore"]
+
+/-! ## manage_config (cfgmap) and the ini tree (rtcfg_) -/
+
+/-- `manage_config::add`: the first definition of a key wins. -/
+def cfgGet (inis : List String) (k : String) : Option String :=
+  (inis.filterMap splitIni).findSome? (fun p => if (stripBang p.1).1 == k then some p.2 else none)
 
 /-- `get_entry_as<std::size_t>(rtcfg_, key, d)` -/
 def rtNat (env : String → Option String) (k : String) (d : Nat) : M Nat :=
@@ -328,7 +348,7 @@ def cfgNat (inis : List String) (k : String) (d : Nat) : M Nat :=
 def handleStr (vm : Vm) (o k : String) : String :=
   match vm.opt o with
   | some v => v
-  | none => (cfgGet (vm.multi "pika:ini") k).getD (rtGet vm.env k)
+  | none => (cfgGet (vm.multi "pika:ini") k).getD (vm.rt k)
 
 /-- The value selected for a row of the settings table by the documented precedence:
     command-line option, else `--pika:ini` definition (cfgmap), else environment variable, else
@@ -336,12 +356,12 @@ def handleStr (vm : Vm) (o k : String) : String :=
 def rawValue (vm : Vm) (s : Setting) : String :=
   match s.opt.bind vm.opt with
   | some v => v
-  | none => (cfgGet (vm.multi "pika:ini") s.key).getD (rtGet vm.env s.key)
+  | none => (cfgGet (vm.multi "pika:ini") s.key).getD (vm.rt s.key)
 
 /-- `cfgmap.get_value<std::size_t>(key, get_entry_as<std::size_t>(rtcfg_, key, d))`
     (`none` = `std::size_t(-1)`): malformed numbers silently fall back. -/
 def cfgRtNat (vm : Vm) (k : String) (d : Option Nat) : M (Option Nat) := do
-  let e := rtGet vm.env k
+  let e := vm.rt k
   let dn : Option Nat ← (if e.isEmpty then pure d else
     match parseNat e with
     | .ok n => pure (some n)
@@ -371,7 +391,7 @@ def keywordThreads (m : Machine) (useMask : Bool) (s : String) : M Nat :=
 /-- `handle_num_threads` -/
 def handleThreads (m : Machine) (vm : Vm) (useMask : Bool) : M Nat := do
   let inis := vm.multi "pika:ini"
-  let threadsStr := (cfgGet inis "pika.os_threads").getD (rtGet vm.env "pika.os_threads")
+  let threadsStr := (cfgGet inis "pika.os_threads").getD (vm.rt "pika.os_threads")
   let defaultThreads ← keywordThreads m useMask threadsStr
   let threads0 ← cfgNat inis "pika.os_threads" defaultThreads
   let threads1 ← (match vm.opt "pika:threads" with
@@ -414,7 +434,7 @@ def handleArguments (m : Machine) (vm : Vm) : M Resolved := do
   let inis := vm.multi "pika:ini"
   -- use_process_mask_
   let ipmDefault ← (do
-    let e := rtGet vm.env "pika.ignore_process_mask"
+    let e := vm.rt "pika.ignore_process_mask"
     if e.isEmpty then pure 0 else natOr e 0)
   let ipm ← cfgNat inis "pika.ignore_process_mask" ipmDefault
   let useMask := !(ipm > 0 || vm.count "pika:ignore-process-mask")
@@ -425,7 +445,7 @@ def handleArguments (m : Machine) (vm : Vm) : M Resolved := do
   check (!affinityDomainOk affinity) .badAffinity
   -- handle_affinity_bind
   let bind0 := if (vm.multi "pika:bind").isEmpty then
-      (cfgGet inis "pika.bind").getD (rtGet vm.env "pika.bind")
+      (cfgGet inis "pika.bind").getD (vm.rt "pika.bind")
     else ";".intercalate (vm.multi "pika:bind")
   let puStep ← handleNat vm "pika:pu-step" "pika.pu_step" (some 1)
   let puStep := puStep.getD 1
@@ -485,16 +505,6 @@ def applyInis : List (String × String) → List String → M (List (String × S
       else if !forced && !cfg.any (fun p => p.1 == k) then fail .iniUnknownKey
       else applyInis (setKey cfg k v) rest
 
-/-- the last `--pika:ini` definition of key `k` (the ini tree: last assignment wins) -/
-def lastIni : List String → String → Option String
-  | [], _ => none
-  | s :: rest, k =>
-    match lastIni rest k with
-    | some v => some v
-    | none => match splitIni s with
-      | some (k0, v) => if (stripBang k0).1 == k then some v else none
-      | none => none
-
 def natStr (n : Nat) : String := toString n
 
 /-- the entries `handle_arguments` appends to `ini_config_` -/
@@ -553,9 +563,12 @@ def parseStage (inp : Input) : M (List String × Parsed) := do
 /-- Stage 2 (`handle_arguments` twice, `reconfigure`): the resolved settings and the final
     configuration tree of the runtime. -/
 def configure (m : Machine) (vm : Vm) : M (Resolved × List (String × String)) := do
-  let r ← handleArguments m vm
+  -- preliminary pass (its results are discarded, its errors are not)
+  let _ ← handleArguments m vm
   -- rtcfg_.reconfigure(cfg): ini definitions from the command line
   let cfg0 ← applyInis (baseCfg vm.env) (vm.multi "pika:ini")
+  -- second pass: same cfgmap and options, but rtcfg_ now contains the ini definitions
+  let r ← handleArguments m vm.second
   let r ← handleHp vm r
   pure (r, writeBack cfg0 r)
 
